@@ -100,50 +100,52 @@ Definition reset_stream (c : conn) (id code : Z) : conn * list val :=
   | None => (c, fs)
   end.
 
-(* the write scheduler releasing queued response DATA of stream id (scheduleFrameWrite after a tickle) *)
-Fixpoint pump (fuel : nat) (c : conn) (id : Z) : conn * list val :=
-  match fuel with
-  | O => (c, [])
-  | S f =>
-    if muted c then (c, []) else
-    match find_s id (strs c) with
-    | None => (c, [])
-    | Some s =>
-      match outq s with
-      | [] => (c, [])
-      | (k, n, fin) :: q =>
-        if negb (k =? 0) then
-          (* a control frame queued on the stream (firstIsNoCost) *)
-          let c1 := upd c (s_with_out s (soflow s) (replied s) q) in
-          let '(c3, fs) := pump f c1 id in (c3, (if k =? 9 then f_wu id n else f_reply id) :: fs)
-        else
+(* ---- the write scheduler (writeScheduler.take + wroteFrame), frames released one at a time ----
+   take(): first a stream queue whose head costs nothing (a control frame or empty DATA), otherwise a stream
+   whose head DATA can be (partly) sent within min(stream window, session window, 16384). *)
+Definition head_nocost (s : stream) : bool :=
+  match outq s with (k, n, _) :: _ => negb (k =? 0) || (n =? 0) | [] => false end.
+Definition head_sendable (c : conn) (s : stream) : bool :=
+  match outq s with (k, n, _) :: _ => (k =? 0) && (0 <? n) && (0 <? zmin (soflow s) (cflow c)) | [] => false end.
+(* write the head of stream id's queue (whole, or the part that fits) *)
+Definition take_head (c : conn) (id : Z) : conn * list val :=
+  match find_s id (strs c) with
+  | None => (c, [])
+  | Some s =>
+    match outq s with
+    | [] => (c, [])
+    | (k, n, fin) :: q =>
+      if negb (k =? 0) then
+        (upd c (s_with_out s (soflow s) (replied s) q), [if k =? 9 then f_wu id n else f_reply id])
+      else
         let allowed := zmin (zmin (soflow s) (cflow c)) MAXFRAME in
-        if (n =? 0) || ((0 <? allowed) && (n <=? allowed)) then
-          (* whole frame *)
+        if (n =? 0) || (n <=? allowed) then
           let s' := s_with_out s (soflow s - n) (replied s) q in
           let c1 := set_cflow (upd c s') (cflow c - n) in
           if fin then
             (* wroteFrame: endsStream -> open: RST_STREAM(CANCEL) + close ; half-closed remote: close *)
-            let c2 := close_s c1 id in
-            (c2, f_data id n true :: (if sstate s =? 1 then [f_rst id 5] else []))
-          else
-            let '(c3, fs) := pump f c1 id in (c3, f_data id n false :: fs)
-        else if 0 <? allowed then
+            (close_s c1 id, f_data id n true :: (if sstate s =? 1 then [f_rst id 5] else []))
+          else (c1, [f_data id n false])
+        else
           let s' := s_with_out s (soflow s - allowed) (replied s) ((0, n - allowed, fin) :: q) in
-          let c1 := set_cflow (upd c s') (cflow c - allowed) in
-          let '(c3, fs) := pump f c1 id in (c3, f_data id allowed false :: fs)
-        else (c, [])
+          (set_cflow (upd c s') (cflow c - allowed), [f_data id allowed false])
+    end
+  end.
+Fixpoint sched (fuel : nat) (c : conn) : conn * list val :=
+  match fuel with
+  | O => (c, [])
+  | S f =>
+    if muted c then (c, []) else
+    match find head_nocost (strs c) with
+    | Some s => let '(c1, f1) := take_head c (sid s) in let '(c2, f2) := sched f c1 in (c2, f1 ++ f2)
+    | None =>
+      match find (head_sendable c) (strs c) with
+      | Some s => let '(c1, f1) := take_head c (sid s) in let '(c2, f2) := sched f c1 in (c2, f1 ++ f2)
+      | None => (c, [])
       end
     end
   end.
-(* streams with queued DATA, tried in list order (the generator keeps at most one such stream) *)
-Fixpoint pump_all (c : conn) (ids : list Z) : conn * list val :=
-  match ids with
-  | [] => (c, [])
-  | id :: r => let '(c1, f1) := pump 200 c id in let '(c2, f2) := pump_all c1 r in (c2, f1 ++ f2)
-  end.
-Definition tickle (c : conn) : conn * list val :=
-  pump_all c (map sid (filter (fun s => negb (match outq s with [] => true | _ => false end)) (strs c))).
+Definition tickle (c : conn) : conn * list val := sched 400 c.
 Definition then_tickle (r : conn * list val) : conn * list val :=
   let '(c, fs) := r in let '(c', fs') := tickle c in (c', fs ++ fs').
 
@@ -155,7 +157,7 @@ Definition process_syn (c : conn) (id : Z) (fin : bool) (cl : Z) (bad : bool) : 
   else if id =? maxid c then then_tickle (reset_stream c id 1)
   else
     let s := {| sid := id; sstate := if fin then 3 else 1; sinflow := INITWIN; soflow := wrap32 (initwin c);
-                decl := if fin then 0 else cl; bodyb := 0; buf := 0; hasbody := negb fin && negb bad; bclosed := false;
+                decl := if fin then 0 else cl; bodyb := 0; buf := 0; hasbody := negb fin; bclosed := false;
                 replied := false; outq := [] |} in
     let c1 := {| strs := strs c ++ [s]; maxid := id; cur := cur c + 1; cinflow := cinflow c; cflow := cflow c;
                  initwin := initwin c; goaway := goaway c; dead := dead c; maxstreams := maxstreams c |} in
